@@ -11,6 +11,16 @@ from smtlint.main import PROPERTIES  # noqa: E402
 TRUST = 'trusts rustc nightly MIR (mir-opt-level=0) as the meaning of the source, the std summaries listed in the evidence, and the spec tables in smtlint/rules; '
 
 CLAIMS = {
+    'C01': dict(
+        text='static (match-arm summaries, engine E4): the smart constructors are interpreted with the manager API kept uninterpreted, each arm normalised into a regex algebra; decided: the nullability table of is_nullable and that RE::make stores it for its own key; the nullable homomorphism of every leaf of concat/mk_loop/make_inter/make_union (eps in result iff eps in the SMT-LIB denotation, under the variant facts of the leaf); an exponent normal form showing each concat rewrite denotes e1.e2 (loop merging adds ranges of identical bases; S.Sigma* absorption needs S nullable); mk_loop flattening guarded by inner.right_mul_is_exact(outer) with inner.mul(outer); derived operators (diff/star/plus/opt/exp/smt_loop/smt_range/constants) and all 20 re_*/str_* wrappers against the SMT-LIB table on the thread-local manager. Language equality of union/inter operand pruning beyond nullability is NOT decided (soundness of subsumption is C16).',
+        note=TRUST + 'hash-consing identity (C07) lets equal ids share attributes; LoopRange operations have their C15 meaning',
+        tech='match-arm term-tree summaries from abstract interpretation of MIR, compared with spec tables modulo algebraic normal forms and propositional equivalence',
+        ref='5.C01'),
+    'C03': dict(
+        text='static (engine E4): every arm of compute_derivative is summarised as a term tree and must equal the Brzozowski rule of its variant with all child derivatives taken for the same character; uniformity: the children an arm consults are children whose partitions BaseRegLan::deriv_class merges under the same guards, the character flows only into derivatives/contains, RE::make stores deriv_class of its own key; cache discipline of cached_deriv/deriv; BadClassId validation in class_derivative/start_class; set_derivative goes through class_of_set and propagates its error; str_derivative/str_in_re fold; plus the C11 partition rules (class_of_char, interval_cover) on which the class/ambiguity clauses rest.',
+        note=TRUST + 'that the manager constructors used in the rules preserve languages is C01; textbook rule = specification (a different but equivalent derivative rule would be reported as table-mismatch)',
+        tech='match-arm term-tree summaries compared with the Brzozowski table; consult-set/class-set inclusion; call-log dataflow for the cache',
+        ref='5.C03'),
     'C06': dict(
         text='static: the index guards of str_at/str_substr/str_indexof/str_len/str_concat and the wrappers are decided by abstract interpretation on all paths in both build configurations, results compared as sequence contents with the SMT-LIB table; naive_search is proved to return the leftmost occurrence at or after the start index by loop invariants over ghost predicates (match-so-far, no-earlier-occurrence) inferred as an inductive fixpoint; str_replace/str_replace_all are checked by splice/step obligations against the search result; vector_prefix/suffix by a prefix-match ghost predicate. No panic other than the documented over-length panic, no wrapping arithmetic or truncating cast.',
         note=TRUST + 'assumes the SmtString invariant (length <= i32::MAX, elements <= MAX_CHAR) for arguments; ghost-predicate axioms are the definitional unfoldings stated in smtlint/rules/c06.py',
@@ -41,11 +51,21 @@ CLAIMS = {
         note=TRUST + 'assumes start<=end for finite ranges; product monotonicity is the only non-linear lemma used by the decision procedure',
         tech='abstract interpretation of MIR (trace partitioning, linear + monomial constraints), per-leaf entailment against spec regions',
         ref='5.C15'),
+    'C16': dict(
+        text='static (engine E4): sub_language is summarised per pair of variants with recursive calls as induction hypothesis; every leaf must return false, or a formula implying a sufficient condition for inclusion that is sound for that pair (identity, Empty, Epsilon/nullable, complement contraposition with swapped operands, exists on (_,Union)/(Inter,_), forall on (Union,_)/(_,Inter)) or the concat_inclusion matcher; is_subsumed excludes the operand itself, remove_subsumed removes exactly the tested index, included_in delegates in order. The rigid/flexible matcher concat_inclusion itself is NOT decided (array-index arithmetic over unbounded pattern lists; DESIGN 7).',
+        note=TRUST + 'concat_inclusion is taken as sound (not analysed)',
+        tech='match-arm summaries with recursion as induction hypothesis, implication to a table of sound schemes decided propositionally',
+        ref='5.C16'),
     'C17': dict(
         text='static taint analysis over abstract values: every function that constructs a SmtString (call-graph inventory of callers of make/make_from_slice, floor checked) must build contents whose parts are provably <= MAX_CHAR (single elements by entailment, slices of SmtString arguments by induction, collected maps by their closure body, vectors under an all(<= MAX_CHAR) path fact, loop-carried buffers by their append sites); integer constructors keep valid values and substitute 0xFFFD exactly; the parser typestate shows every appended element is good and every buffered char ASCII; SmtString aggregates only in make/EMPTY/derived Clone, content field private, no &mut exposure.',
         note=TRUST + 'SmtString arguments assumed good (induction over string construction); char <= 0x10FFFF',
         tech='taint / value-range analysis by abstract interpretation of MIR, call-graph inventory of sinks, typestate fixpoint for the parser',
         ref='5.C17'),
+    'C18': dict(
+        text='static (engine E4): the function computed by each arm of start_char (disjunction of its leaves) must be logically equivalent to the exact recurrence of its variant (Empty/Epsilon false, Range membership, Union exists, Loop S(x), Concat (S(x) and not empty(y)) or (N(x) and S(y))) or be the delegation not is_empty_re(deriv(e,c)) - the only exact option for Inter and Complement; start_class validates the class id and uses the representative of the same class.',
+        note=TRUST + 'Loop rule exact because no loop term has range [0,0] (C01.R7); derivative/emptiness exactness is C03/C05',
+        tech='match-arm summaries compared with exact recurrences by propositional equivalence (in-checker decision procedure)',
+        ref='5.C18'),
     'C20': dict(
         text='static: every CharSet method is abstractly interpreted on all paths in both build configurations; each leaf must entail the set-theoretic spec of the value it returns; no leaf may panic; no arithmetic may wrap. Decides the interval algebra for all inputs satisfying the CharSet invariant.',
         note=TRUST + 'assumes start<=end<=MAX_CHAR for CharSet arguments',
